@@ -259,6 +259,8 @@ def emit_fn(card, repo, out, info, twin=False):
     fid = card.id
     if card.mode == 'assumed':
         out.add('#[verifier::external_body]', {'fn': fid, 'part': 'attr'})
+    if card.opts.get('rlimit'):
+        out.add('#[verifier::rlimit(%s)]' % card.opts['rlimit'], {'fn': fid, 'part': 'attr'})
     out.add(sig, {'fn': fid, 'part': 'sig'})
     if card.requires:
         out.add('    requires', {'fn': fid, 'part': 'sig'})
@@ -350,6 +352,15 @@ def emit_fn(card, repo, out, info, twin=False):
             raise AnchorLost('%s: hint %s anchor %r lost' % (fid, hname, anchor))
     hint_text = {h[0]: h[4] for h in card.hints}
     first_body_line = len(out.lines)
+    if card.opts.get('reveal'):
+        rv = ' '.join('reveal(%s);' % x for x in card.opts['reveal'].split(','))
+        p0 = hinted[0][1].index('{')
+        hinted[0][1] = hinted[0][1][:p0 + 1] + ' proof { ' + rv + ' } ' + hinted[0][1][p0 + 1:]
+        # loop bodies are verified as separate queries: reveal there as well
+        for si in range(1, len(hinted)):
+            if hinted[si][0] == 'body' and hinted[si - 1][0].startswith('loop'):
+                p0 = hinted[si][1].index('{')
+                hinted[si][1] = hinted[si][1][:p0 + 1] + ' proof { ' + rv + ' } ' + hinted[si][1][p0 + 1:]
     body_hash = hashlib.sha256()
     for kind, text in hinted:
         if kind == 'body':
@@ -437,9 +448,14 @@ def emit_type(repo, file, name, derive, out, info, codes=None, rename=None, subs
     text = strip_attrs_and_vis(clean[s:e + 1])
     text = squeeze(text)
     text = '\n'.join(l for l in text.split('\n') if l.strip())
-    for pair in (subs.split(',') if subs else []):
-        a, b = pair.split(':')
-        text = re.sub(r'\b%s\b' % re.escape(a), b, text)
+    for pair in (subs.split(';') if subs else []):
+        a, b = pair.split(':', 1)
+        if re.fullmatch(r'\w+', a):
+            text = re.sub(r'\b%s\b' % re.escape(a), b, text)
+        else:
+            if a not in text:
+                raise AnchorLost('type %s: substitution anchor %r lost' % (name, a))
+            text = text.replace(a, b)
     text = pubify(text, kind)
     if rename:
         text = re.sub(r'\b(struct|enum)\s+%s\b' % re.escape(name), r'\1 ' + rename, text, count=1)
